@@ -416,7 +416,7 @@ def plan(tier, seed):
     descs = [{"kind": "commands", "lo": i, "step": 4} for i in range(4)]
     descs.append({"kind": "specials", "triples": 0 if tier == "quick" else 1})
     nr = 6 if tier == "quick" else 10
-    per = 500 if tier == "quick" else 5000
+    per = 1200 if tier == "quick" else 8000
     for _ in range(nr):
         descs.append({"kind": "random", "n": per, "components": 60 if tier == "quick" else 500})
     return descs
